@@ -13,20 +13,25 @@
 let npool = 3
 let n2i = int_of_nat and i2n = nat_of_int
 
-type pop = { o : op; plan : int option; name : string }
+type pop = { o : op; plan : int option; name : string; cthrow : bool; form : int }
 
 let digits s = if s = "_" then [] else List.init (String.length s) (fun i ->
   let c = s.[i] in if c >= '1' && c <= '9' then Char.code c - 48 else failwith "digit")
 let nats s = List.map i2n (digits s)
 
 let parse_op (w : string) : pop =
-  let w, plan = match String.index_opt w '!' with
-    | Some i -> String.sub w 0 i, Some (int_of_string (String.sub w (i+1) (String.length w - i - 1)))
-    | None -> w, None in
+  (* !k : the k-th element assignment throws;  !c : the element constructor invoked with the emplace arguments throws *)
+  let w, plan, cthrow = match String.index_opt w '!' with
+    | Some i -> let s = String.sub w (i+1) (String.length w - i - 1) in
+                if s = "c" then String.sub w 0 i, None, true
+                else (String.iter (fun ch -> if ch < '0' || ch > '9' then failwith "plan") s;
+                      String.sub w 0 i, Some (int_of_string s), false)
+    | None -> w, None, false in
+  let form = ref 0 in
   (* ~f: the overload / value category / argument form the C++ driver uses; the same operation for the model *)
   let w = match String.index_opt w '~' with
     | Some i -> let f = int_of_string (String.sub w (i+1) (String.length w - i - 1)) in
-                if f < 0 || f > 9 then failwith "form" else String.sub w 0 i
+                if f < 0 || f > 9 then failwith "form" else (form := f; String.sub w 0 i)
     | None -> w in
   let f = String.split_on_char ',' w in
   let n s = let v = int_of_string s in if v < 0 || v > 1000 then failwith "range" else i2n v in
@@ -70,7 +75,11 @@ let parse_op (w : string) : pop =
     | ["emb"; i; d; v] -> OEmplaceBefore (n i, n d, n v)
     | ["irb"; i; d; xs] -> OInsertRangeBefore (n i, n d, nats xs)
     | _ -> failwith "op" in
-  { o; plan; name = List.hd f }
+  let o = if cthrow then (match o with
+      | OEmplaceBack (i, _) -> OEmplaceBackCtorThrows i
+      | OEmplace (i, p, _) -> OEmplaceCtorThrows (i, p)
+      | _ -> o) else o in
+  { o; plan; name = List.hd f; cthrow; form = !form }
 
 (* objects a step may write (printed afterwards), objects it uses (must not be moved-from), the object it (re)creates
    or assigns as a whole, and whether it needs copyable elements *)
@@ -81,7 +90,8 @@ let writes o = match o with
   | OPushBack (i, _) | OInsertRange (i, _, _) | OInsertList (i, _, _) | OPushBackRange (i, _) | OPop i | OErase (i, _)
   | ODestroy i | OEmplaceAt (i, _, _) | OEmplaceBackAt (i, _) | OInsertAt (i, _) | OPushBackAt (i, _)
   | OInsertSelfRange (i, _, _, _) | OPushBackSelfRange (i, _, _)
-  | OEraseBefore (i, _) | OEmplaceBefore (i, _, _) | OInsertRangeBefore (i, _, _) | OConstructFrom (i, _, _) -> [n2i i]
+  | OEraseBefore (i, _) | OEmplaceBefore (i, _, _) | OInsertRangeBefore (i, _, _) | OConstructFrom (i, _, _)
+  | OEmplaceBackCtorThrows i | OEmplaceCtorThrows (i, _) -> [n2i i]
 let uses o = match o with
   | ONew _ | ONewFrom _ | ONewList _ | OListAssign _ | ODestroy _ -> []
   | OCopy (_, j) | OMove (_, j) | OAssign (_, j) | OMoveAssign (_, j) | OConstructFrom (_, _, j) -> [n2i j]
@@ -89,7 +99,8 @@ let uses o = match o with
   | OPushBack (i, _) | OInsertRange (i, _, _) | OInsertList (i, _, _) | OPushBackRange (i, _) | OPop i | OErase (i, _)
   | OEmplaceAt (i, _, _) | OEmplaceBackAt (i, _) | OInsertAt (i, _) | OPushBackAt (i, _)
   | OInsertSelfRange (i, _, _, _) | OPushBackSelfRange (i, _, _)
-  | OEraseBefore (i, _) | OEmplaceBefore (i, _, _) | OInsertRangeBefore (i, _, _) -> [n2i i]
+  | OEraseBefore (i, _) | OEmplaceBefore (i, _, _) | OInsertRangeBefore (i, _, _)
+  | OEmplaceBackCtorThrows i | OEmplaceCtorThrows (i, _) -> [n2i i]
 let needs_copy o = match o with
   | ONewFrom _ | ONewList _ | OCopy _ | OAssign _ | OListAssign _ | OInsert _ | OPushBack _ | OInsertRange _
   | OInsertList _ | OPushBackRange _
@@ -99,7 +110,7 @@ let needs_copy o = match o with
 (* positions are turned into iterators begin()+pos by the C++ driver: only 0..capacity is a valid pointer *)
 let position o = match o with
   | OEmplace (i, p, _) | OInsertRange (i, p, _) | OInsertList (i, p, _) | OErase (i, p)
-  | OEmplaceAt (i, p, _) | OInsertSelfRange (i, p, _, _) -> Some (n2i i, n2i p)
+  | OEmplaceAt (i, p, _) | OInsertSelfRange (i, p, _, _) | OEmplaceCtorThrows (i, p) -> Some (n2i i, n2i p)
   | _ -> None
 let list_len o = match o with
   | ONewList (_, xs) | OListAssign (_, xs) | OInsertList (_, _, xs) -> List.length xs
@@ -144,6 +155,8 @@ let refused variant (p : pop) : bool =
   (needs_copy p.o && not (copyable variant)) || (p.plan <> None && not (throwing variant))
   || List.exists (fun i -> i >= npool) (writes p.o @ uses p.o)
   || (p.name = "sw" && p.plan <> None)
+  || (p.cthrow && not (List.mem variant ["C"; "M"; "T"; "U"] && (p.name = "eb" || p.name = "em")
+                       && (p.form = 0 || p.form = 1 || p.form = 5 || (p.form = 4 && copyable variant))))
   || list_len p.o > 5
   || (match p.o with ONewFrom (_, _, xs) -> (p.name = "nfi" && List.length xs > 5) || (p.name = "nfa" && List.length xs > 6) | _ -> false)
   || (match p.o with OGet (_, k) -> n2i k > 5 | _ -> false)
@@ -254,13 +267,13 @@ let oracle (ws : string list) (obs : string) : bool =
           let ws_ = List.sort_uniq compare (writes p.o) in
           if oc = "F" then begin
             (* an element assignment threw: only legal under a fault plan; the spec fixes what may be left behind *)
-            p.plan <> None && List.map (fun (i, _) -> i) objs = ws_ &&
+            (p.plan <> None || p.cthrow) && List.map (fun (i, _) -> i) objs = ws_ &&
             List.for_all (fun (i, s) ->
               let old = aget before (i2n i) in
               match p.o with
               | ONewFrom _ | ONewList _ | OCopy _ | OConstructFrom _ -> s = "X" && (pool := aset !pool (i2n i) None; mf.(i) <- false; true)
               | OEmplaceBack _ | OInsert _ | OInsertMove _ | OPushBack _ | OAssign _ | OListAssign _
-              | OEmplaceBackAt _ | OInsertAt _ | OPushBackAt _ ->
+              | OEmplaceBackAt _ | OInsertAt _ | OPushBackAt _ | OEmplaceBackCtorThrows _ | OEmplaceCtorThrows _ ->
                   (match old with Some a -> if mf.(i) then s = "MF" else s = render_abs a | None -> false)
               | OEmplace _ | OErase _ | OInsertRange _ | OInsertList _ | OPushBackRange _
               | OEmplaceAt _ | OInsertSelfRange _ | OPushBackSelfRange _ ->
